@@ -214,6 +214,7 @@ func TestProp_XMLAttr(t *testing.T) {
 		// CDATA
 		if rapid.IntRange(0, 3).Draw(t, "many") == 0 {
 			b = append(b, gen.Fragments(t, "lt", []string{"<", "&", "<<", "&&", "a"}, 8)...)
+			b = bytes.ReplaceAll(b, []byte{0}, []byte("0"))
 		}
 		snap = append([]byte(nil), b...)
 		cd, ok := xml.EscapeCDATAVal(&buf, b)
